@@ -60,3 +60,71 @@ Lemma signal_link_all :
      signal_compare (i_addr a) (i_sig a) (i_addr b) (i_sig b) fa fb = Some 0 ->
      i_sig a = i_sig b /\ i_excl a = i_excl b /\ i_addr a = i_addr b).
 Proof. exact (conj leaf_signal_compare (conj leaf_signal_lt leaf_signal_eq)). Qed.
+
+(* ---- round 9: the fan-out walk of __iv_signal_do_wake ----
+   gen/c2gallina.py also translates `while (an != NULL)`, `if (is->signum != signum) break;`, `is->active = 1;`,
+   `woken++;` and `if (is->flags & IV_SIGNAL_FLAG_EXCLUSIVE) break;`.  The walk written with these tests over the
+   records of one tree in tree order, starting at the first record of the signal, selects exactly `walk` of the model
+   (every interest of the signal up to and including the first exclusive one) and counts them. *)
+Import ListNotations.
+
+Definition flags_of (r : irec) : Z := (if i_excl r then 1 else 0) + (if i_tt r then 2 else 0).
+
+Fixpoint do_wake_code (signum : Z) (l : list irec) (woken : Z) : option (list Z * Z) :=
+  match l with
+  | [] => match signal_wake_more 0 with Some false => Some ([], woken) | _ => None end
+  | r :: t =>
+      match signal_wake_more (i_addr r), signal_wake_other (i_sig r) signum with
+      | Some more, Some other =>
+          if negb more then Some ([], woken) else
+          if other then Some ([], woken) else
+          match signal_wake_active tt, signal_wake_count woken, signal_wake_excl (flags_of r) with
+          | Some one, Some woken', Some excl =>
+              if negb (one =? 1) then None else
+              if excl then Some ([i_id r], woken')
+              else match do_wake_code signum t woken' with
+                   | Some (ids, w) => Some (i_id r :: ids, w)
+                   | None => None
+                   end
+          | _, _, _ => None
+          end
+      | _, _ => None
+      end
+  end.
+
+Lemma leaf_wake_excl : forall r, signal_wake_excl (flags_of r) = Some (i_excl r).
+Proof. intros r. unfold signal_wake_excl, flags_of. destruct (i_excl r), (i_tt r); reflexivity. Qed.
+
+(* records of the signal first (as __iv_signal_find_first positions the walk), then records of other signals *)
+Theorem do_wake_is_the_code : forall sig same rest woken,
+  (forall r, In r same -> i_sig r = sig /\ i_addr r <> 0) ->
+  (match rest with [] => True | r :: _ => i_sig r <> sig /\ i_addr r <> 0 end) ->
+  0 <= woken -> woken + Z.of_nat (length same) < 2147483648 ->
+  do_wake_code sig (same ++ rest) woken = Some (walk same, woken + Z.of_nat (length (walk same))).
+Proof.
+  intros sig same. induction same as [|r t IH]; intros rest woken Hs Hr H0 Hb.
+  - cbn [app walk length Z.of_nat]. rewrite Z.add_0_r. destruct rest as [|x rest']; cbn [do_wake_code].
+    + reflexivity.
+    + destruct Hr as [Hx Ha]. unfold signal_wake_more, signal_wake_other.
+      destruct (Z.eqb_spec (i_addr x) 0); [contradiction|]. cbn [negb].
+      destruct (Z.eqb_spec (i_sig x) sig); [contradiction|]. reflexivity.
+  - cbn [app do_wake_code]. destruct (Hs r (or_introl eq_refl)) as [Hsig Haddr].
+    unfold signal_wake_more, signal_wake_other, signal_wake_active, signal_wake_count. rewrite leaf_wake_excl.
+    assert (Ec : c_chk_s 32 (woken + 1) = Some (woken + 1)).
+    { unfold c_chk_s, c_in_s.
+      cbn [length] in Hb. rewrite Nat2Z.inj_succ in Hb.
+      assert (H1 : (- 2 ^ (32 - 1) <=? woken + 1) = true) by (apply Z.leb_le; change (2 ^ (32 - 1)) with 2147483648; lia).
+      assert (H2 : (woken + 1 <? 2 ^ (32 - 1)) = true) by (apply Z.ltb_lt; change (2 ^ (32 - 1)) with 2147483648; lia).
+      rewrite H1, H2. reflexivity. }
+    rewrite Ec.
+    destruct (Z.eqb_spec (i_addr r) 0); [contradiction|]. cbn [negb].
+    rewrite Hsig, Z.eqb_refl. cbn [negb Z.eqb].
+    cbn [walk]. destruct (i_excl r).
+    + cbn [length Z.of_nat Pos.of_succ_nat]. reflexivity.
+    + rewrite IH.
+      * cbn [length Pos.eqb negb]. rewrite Nat2Z.inj_succ. f_equal. f_equal. lia.
+      * intros x Hx. apply Hs. right. exact Hx.
+      * exact Hr.
+      * lia.
+      * cbn [length] in Hb. rewrite Nat2Z.inj_succ in Hb. lia.
+Qed.
